@@ -13,7 +13,8 @@ T = {
  'listen-in-loop': ('X is 0\nWhile X is less than 2\nBuild X up\nListen to L\nsay L\n\nsay "end"\n', {}),
  'error-between': ('say "a"\nListen to X\nsay Zed plus 9001\nsay "b"\nListen to Y\n', {'n1': {}}),
 }
-BOUNDS = {'programs': 'the %d templates of this file' % len(T), 'input': '0..=3 input lines of any text without line feed, the last with or without terminator (fewer lines than `listen`s: end of input)',
+BOUNDS = {'generated programs': 'every sequence of <= 2 (thorough 3) I/O statements out of 20: {say constant, say X, Listen to X, Listen} x {bare, in a taken branch, in a 2-pass loop, in a function called as a statement, in a function called inside an expression}, then X is printed; input 0..=2 lines (opaque strings; and, for sequences of <= 1 (thorough 2), a bounded first line of 0..=2 symbolic characters incl. blanks, CR and multi-byte characters, further lines constant), a single line with / without terminator; one fault plan per path: output fails from call k on, or input fails from call k on, or no fault',
+          'programs': 'plus the %d templates of this file' % len(T), 'input': '0..=3 input lines of any text without line feed, the last with or without terminator (fewer lines than `listen`s: end of input)',
           'faults': 'the output stream fails from its k-th call on for every k (or never); likewise the input stream', 'observables': 'every write call and its text, every read call, the outcome'}
 OUTSIDE = ['byte-level behaviour of BufReader / writeln! (std)', 'carriage returns', 'the CLI wiring (C20)']
 ASSUMPTIONS = C04.ASSUMPTIONS + ['a stream that has failed keeps failing (fault plan: from call k on)']
@@ -37,15 +38,70 @@ def h_io(vm, mir, name):
     return run_both(vm, mir, prog, stdin, of if of >= 0 else None, inf if inf >= 0 else None, describe=vm.describe)
 
 
+def sym_line(vm, n, name):
+    """bounded line: n symbolic characters (no line feed), classes forked: ASCII non-blank / ASCII blank incl. CR / 2-, 3-, 4-byte members of R"""
+    from .lexcommon import R_BY_WIDTH
+    from ..strings import BStr, Buf
+    from .. import chartab
+    cps, ws = [], []
+    for i in range(n):
+        c = z3.BitVec(f'{name}.c{i}', 32); vm.keep.append(c)
+        k = vm.fork(5, note=f'{name}.class{i}')
+        if k == 0: vm.assume(z3.And(z3.ULT(c, 128), z3.Not(chartab.is_whitespace(c)))); w = 1
+        elif k == 1: vm.assume(z3.And(chartab.is_ascii_whitespace(c), c != 10)); w = 1
+        else:
+            w = k; ms = R_BY_WIDTH[w]
+            vm.assume(z3.Or(*[c == m for m in ms]) if len(ms) > 1 else c == ms[0]); vm.domains[c.get_id()] = set(ms)
+        cps.append(c); ws.append(w)
+    return BStr(Buf(cps, ws))
+
+
+def line_term(b):
+    """z3 string term of a bounded line (for the reference side)"""
+    parts = [z3.Unit(z3.CharFromBv(z3.Extract(17, 0, c) if not isinstance(c, int) else z3.BitVecVal(c, 18))) for c in b.chars()]
+    if not parts: return zs('')
+    return z3.Concat(*parts) if len(parts) > 1 else parts[0]
+
+
+def h_ioshape(vm, mir, chunk, bounded):
+    i = vm.fork(len(chunk), note='shape') if len(chunk) > 1 else 0
+    text = chunk[i][0]
+    prog = instantiate(vm, mir, program_of_shape(mir, chunk[i]), {})
+    nlines = vm.fork(3, note='input-lines')
+    stdin, real = [], []
+    for k in range(nlines):
+        term = True if (k < nlines - 1 or nlines == 2) else (vm.fork(2, note='last-line-terminated') == 1)
+        if bounded:
+            b = sym_line(vm, vm.fork(3, note=f'line{k}.len'), f'line{k}') if k == 0 else bstr_from_py('z')      # only the first line is symbolic (lines are independent)
+            stdin.append((line_term(b), term))
+            real.append(BStr(Buf(b.buf.cps + ([10] if term else []), b.buf.widths + ([1] if term else []))))
+        else: stdin.append((str_hole(vm, f'line{k}'), term))
+    max_out, max_in = chunk[i][1]['out_calls'], chunk[i][1]['in_calls']      # a fault at a later call index never happens
+    plans = [(None, None)] + [(k, None) for k in range(max_out)] + [(None, k) for k in range(max_in)]
+    of, inf = plans[vm.fork(len(plans), note='fault-plan')]
+    d0 = describe_holes({}, stdin)
+    vm.describe = lambda m: dict(d0(m), program=text, out_fail_at=of, in_fail_at=inf)
+    return run_both(vm, mir, prog, stdin, of, inf, describe=vm.describe, real_lines=(real if bounded else None))
+
+
 def jobs(ctx, tier):
+    from ..progen import io_shapes, chunks
     mir = ctx.mir('dev')
-    return [Job(f'io/{n}', h_io, (mir, n), witness=['run-done'], fuel=20_000_000, weight=5) for n in T]
+    js = [Job(f'io/{n}', h_io, (mir, n), witness=['run-done'], fuel=20_000_000, weight=5) for n in T]
+    q = tier == 'quick'
+    for k, ch in enumerate(chunks(preparse(ctx, io_shapes(2 if q else 3)), 6)):
+        js.append(Job(f'io-shapes/{k}', h_ioshape, (mir, ch, False), witness=['run-done'], fuel=20_000_000, weight=20))
+    for k, ch in enumerate(chunks(preparse(ctx, io_shapes(1 if q else 2)), 2)):
+        js.append(Job(f'io-shapes-bounded-lines/{k}', h_ioshape, (mir, ch, True), witness=['run-done'], fuel=20_000_000, weight=20, str_mode='bounded'))
+    return js
 
 
 validate = C04.validate
 
 
 def replay(ctx, f):
-    name = (f.get('cex') or {}).get('template')
+    cex = f.get('cex') or {}
+    if 'program' in cex: return native_replay(ctx, cex['program'], f)
+    name = cex.get('template')
     if name not in T: return {'reproduced': None}
     return native_replay(ctx, T[name][0], f)
